@@ -5442,6 +5442,11 @@ class NetCDFWrite(IOWrite):
         # Write external fields to the external file
         # ------------------------------------------------------------
         if g["external_fields"] and g["external_file"] is not None:
+            # The external fields are derived from copies of parts of
+            # the constructs: the external file must not be one that
+            # any of the constructs themselves still read from
+            self._check_file_not_needed(g["external_file"], fields)
+
             if extra_write_vars:
                 extra_write_vars = extra_write_vars.copy()
             else:
